@@ -569,25 +569,23 @@ static std::string oracle(World& w, const Snap& b, const std::string& op, const 
                 }
     }
     if (k == "rm") {
-        TagMap m = {};
+        // the map the pairs denote, kept independently of TagMap: a later pair replaces an earlier one for the same key, and a pair
+        // (k, k) leaves k unmapped
+        std::map<Tag, Tag> m;
         for (auto& it : list_of(t[1])) {
             auto kv = split(it, '>');
-            m.set(parse_tag(kv[0]), parse_tag(kv[1]));
+            Tag from = parse_tag(kv[0]), to = parse_tag(kv[1]);
+            if (from == to) m.erase(from);
+            else m[from] = to;
         }
+        auto get = [&](Tag x) { auto f2 = m.find(x); return f2 == m.end() ? x : f2->second; };
         for (size_t i = 0; i < n0; i++) {
             bool mem = has(b.ca, (int)i);
             for (size_t j = 0; j < b.pt[i].size(); j++)
-                if (a.pt[i][j] != (mem ? m.get(b.pt[i][j]) : b.pt[i][j])) {
-                    m.clear();
-                    return "remap-shape-tag cell " + hx(i);
-                }
+                if (a.pt[i][j] != (mem ? get(b.pt[i][j]) : b.pt[i][j])) return "remap-shape-tag cell " + hx(i);
             for (size_t j = 0; j < b.lt[i].size(); j++)
-                if (a.lt[i][j] != (mem ? m.get(b.lt[i][j]) : b.lt[i][j])) {
-                    m.clear();
-                    return "remap-label-tag cell " + hx(i);
-                }
+                if (a.lt[i][j] != (mem ? get(b.lt[i][j]) : b.lt[i][j])) return "remap-label-tag cell " + hx(i);
         }
-        m.clear();
     }
     // tag queries = tags in use
     {
@@ -920,6 +918,11 @@ struct Gen {
         int n = (int)g.below(4);
         std::vector<std::string> v;
         for (int i = 0; i < n; i++) v.push_back(tagtxt() + ">" + tagtxt());
+        if (g.chance(30)) {  // a key mapped and then mapped to itself: the second pair withdraws the first
+            std::string key = tagtxt();
+            v.push_back(key + ">" + tagtxt());
+            v.push_back(key + ">" + key);
+        }
         return "rm " + (v.empty() ? "-" : join(v));
     }
 
